@@ -5,7 +5,7 @@ from vlib import Broken
 
 SYNCER_MUTANTS = {"block_unconditional": "safety", "unblock_no_guard": "safety", "pop_rearm_wrong": "safety",
                   "timer_zero": "safety", "no_state_retry": "liveness"}
-CRASH_MUTANTS = ["no_epoch_after_sync", "expose_all_epochs", "no_data_sync", "release_at_pop", "release_all"]
+CRASH_MUTANTS = ["no_epoch_after_sync", "expose_all_epochs", "no_data_sync", "release_at_pop", "release_all", "constant_seed"]
 
 
 def syncer_cfg(mut="none", live=False, fin=3, push=2, pop=2, fail=2, shut=True, interval=2):
@@ -18,10 +18,10 @@ def syncer_cfg(mut="none", live=False, fin=3, push=2, pop=2, fail=2, shut=True, 
     return s
 
 
-def crash_cfg(mut="none", ups=2, regs=3, blocks=4, syncs=2):
-    return ('INIT Init\nNEXT Next\nCONSTANTS\n Uploads = {%s}\n NumRegions = %d\n MaxBlocks = %d\n MaxSyncs = %d\n Mut = "%s"\n'
-            'INVARIANTS CrashSafe ListedNotFreeStrict CommitDurable Counters\n') % (
-        ",".join('"u%d"' % i for i in range(1, ups + 1)), regs, blocks, syncs, mut)
+def crash_cfg(mut="none", ups=2, regs=3, blocks=4, syncs=2, crashes=1):
+    return ('INIT Init\nNEXT Next\nCONSTANTS\n Uploads = {%s}\n NumRegions = %d\n MaxBlocks = %d\n MaxSyncs = %d\n MaxCrashes = %d\n Mut = "%s"\n'
+            'INVARIANTS CrashSafe LiveSafe ListedNotFreeStrict CommitDurable Counters\n') % (
+        ",".join('"u%d"' % i for i in range(1, ups + 1)), regs, blocks, syncs, crashes, mut)
 
 
 def mutant_report(regenerate=False):
@@ -33,7 +33,7 @@ def mutant_report(regenerate=False):
         r = vlib.run_tlc("Syncer", syncer_cfg(m, live=(kind == "liveness"), fin=2, push=1, pop=1, fail=1), timeout=900)
         out["Syncer/" + m] = r.violated or ("NOT KILLED" if r.ok else "error: %s" % r.error)
     for m in CRASH_MUTANTS:
-        r = vlib.run_tlc("CrashEpochs", crash_cfg(m), timeout=900)
+        r = vlib.run_tlc("CrashEpochs", crash_cfg(m, crashes=2 if m == "constant_seed" else 1, blocks=3 if m == "constant_seed" else 4), timeout=1500)
         out["CrashEpochs/" + m] = r.violated or ("NOT KILLED" if r.ok else "error: %s" % r.error)
     bad = [k for k, v in out.items() if v == "NOT KILLED" or str(v).startswith("error")]
     if bad:
@@ -63,11 +63,14 @@ def check(pid, tier):
         details["syncer_liveness"] = {"constants": lc, "distinct_states": r.distinct, "transitions": r.generated,
                                       "property": "<>[](every epoch covered by a durable state file /\\ nothing awaiting release) under WF of both loops and of time"}
     else:
-        c = dict(ups=2, regs=3, blocks=4, syncs=2) if quick else dict(ups=3, regs=3, blocks=3, syncs=2)
-        r = vlib.run_tlc("CrashEpochs", crash_cfg(**c), timeout=3400)
-        vlib.require_model_ok(r, "CrashEpochs %s" % c)
-        states += r.distinct
-        trans += r.generated
-        details["crash_epochs"] = {"constants": c, "distinct_states": r.distinct, "transitions": r.generated, "depth": r.depth,
-                                   "invariants": ["CrashSafe", "ListedNotFreeStrict", "CommitDurable", "Counters"]}
+        cfgs = [dict(ups=2, regs=3, blocks=3, syncs=1, crashes=2)] if quick else \
+            [dict(ups=2, regs=3, blocks=4, syncs=2, crashes=1), dict(ups=2, regs=3, blocks=3, syncs=2, crashes=2), dict(ups=3, regs=3, blocks=3, syncs=1, crashes=1)]
+        details["crash_epochs"] = []
+        for c in cfgs:
+            r = vlib.run_tlc("CrashEpochs", crash_cfg(**c), timeout=3400)
+            vlib.require_model_ok(r, "CrashEpochs %s" % c)
+            states += r.distinct
+            trans += r.generated
+            details["crash_epochs"].append({"constants": c, "distinct_states": r.distinct, "transitions": r.generated, "depth": r.depth,
+                                            "invariants": ["CrashSafe", "LiveSafe", "ListedNotFreeStrict", "CommitDurable", "Counters"]})
     return states, trans, details
